@@ -321,6 +321,19 @@ def entryBeforeExit (G : LGraph) (src : Nat) (trace : List Nat) (s : Closure.Sta
 def lassoCut (G : LGraph) (src : Nat) (trace : List Nat) (s : Closure.State Item Key) : Bool :=
   (offered G src trace s).any fun a => (stepSpec G src a).any fun c => !lassoFree G c
 
+/-- the `seen` key a repaired visitor would use: everything the successors depend on
+    (the item without `Prev`, plus the one boolean through which `Prev` matters) -/
+abbrev KeyFull := Item × Bool
+def keyFull (G : LGraph) (a : Item) : KeyFull := (a.core, flag G a)
+
+/-- the same traversal with the full key ("ideal" visitor): used to attribute a missed flow to the
+    seen-key defect (F14 / C01a): the ideal run finds it, the real key loses it -/
+def runIdeal (G : LGraph) (src : Nat) (trace : List Nat) (fuel : Nat) : Closure.State Item KeyFull :=
+  Closure.run (keyFull G) (succ G src) fuel [root src trace]
+
+def flowsOfIdeal (G : LGraph) (s : Closure.State Item KeyFull) : List Nat :=
+  (s.visited.filter (reported G)).map (·.node)
+
 /-- did the access-path matching of `addNext` drop a candidate of some offered item?
     (only possible on field-sensitive graphs) -/
 def pathCut (G : LGraph) (src : Nat) (trace : List Nat) (s : Closure.State Item Key) : Bool :=
